@@ -60,7 +60,7 @@ theorem sinv_congr {w w' : World} (hn : w'.nodes = w.nodes) (ht : w'.tables = w.
   subst hn; subst ht; subst hc; subst hx
   exact ⟨⟨h.node.tnode, h.node.tables, h.node.free, h.node.tmap⟩,
     ⟨h.tgt.sound, h.tgt.complete, h.tgt.free, h.tgt.freeNodup, h.tgt.empty, h.tgt.norel⟩,
-    ⟨h.cov.cover, h.cov.active, h.cov.single⟩,
+    ⟨h.cov.cover, h.cov.active, h.cov.single, h.cov.nonempty⟩,
     ⟨fun e he => ⟨(h.cache.entries e he).inj, (h.cache.entries e he).mem, (h.cache.entries e he).sound, (h.cache.entries e he).complete⟩,
      h.cache.ids, h.cache.idsInj⟩⟩
 
